@@ -138,7 +138,7 @@ class RuleCtx:
         return self.ok(rule, body.fn, what, f"from bb{start_bb}: {len(set(action_bbs))} action site(s) only over {sorted(edges)[:3]}",
                        where=body.where(start_bb))
 
-    def cut(self, rule, body, action_desc, action_bbs, guard_desc, edges_fn):
+    def cut(self, rule, body, action_desc, action_bbs, guard_desc, edges_fn, per_visit=False):
         """edges_fn: callable returning the guard's success edges (may raise GuardMissing)."""
         what = f"{action_desc} cut-by {guard_desc}"
         try:
@@ -148,7 +148,7 @@ class RuleCtx:
         if not edges:
             return self.fail(rule, body.fn, what, f"guard '{guard_desc}' has no success edge in {body.fn}",
                              where=f"{body.file}:{body.line}")
-        ob = prims.cut_by(self.facts, body, rule, action_desc, action_bbs, guard_desc, edges)
+        ob = prims.cut_by(self.facts, body, rule, action_desc, action_bbs, guard_desc, edges, per_visit=per_visit)
         return self.add(ob)
 
 
